@@ -198,40 +198,40 @@ func (r *Resolver) getIDValue(g *Scope, extra *parser.ConstValueExtra) (v string
 // ResolveConst returns the initialization code for a constant or a default value.
 // The type t must be a parser.Type associated with g.
 func (r *Resolver) ResolveConst(g *Scope, name string, t *parser.Type, v *parser.ConstValue) (Code, error) {
-	str, err := r.resolveConst(g, name, t, v)
+	str, err := r.resolveConst(g, g, name, t, v)
 	return Code(str), err
 }
 
-func (r *Resolver) resolveConst(g *Scope, name string, t *parser.Type, v *parser.ConstValue) (string, error) {
+func (r *Resolver) resolveConst(g, vs *Scope, name string, t *parser.Type, v *parser.ConstValue) (string, error) {
 	switch t.Category {
 	case parser.Category_Bool:
-		return r.onBool(g, name, t, v)
+		return r.onBool(g, vs, name, t, v)
 
 	case parser.Category_Byte, parser.Category_I16, parser.Category_I32, parser.Category_I64:
-		return r.onInt(g, name, t, v)
+		return r.onInt(g, vs, name, t, v)
 
 	case parser.Category_Double:
-		return r.onDouble(g, name, t, v)
+		return r.onDouble(g, vs, name, t, v)
 
 	case parser.Category_String, parser.Category_Binary:
-		return r.onStrBin(g, name, t, v)
+		return r.onStrBin(g, vs, name, t, v)
 
 	case parser.Category_Enum:
-		return r.onEnum(g, name, t, v)
+		return r.onEnum(g, vs, name, t, v)
 
 	case parser.Category_Set, parser.Category_List:
-		return r.onSetOrList(g, name, t, v)
+		return r.onSetOrList(g, vs, name, t, v)
 
 	case parser.Category_Map:
-		return r.onMap(g, name, t, v)
+		return r.onMap(g, vs, name, t, v)
 
 	case parser.Category_Struct, parser.Category_Union, parser.Category_Exception:
-		return r.onStructLike(g, name, t, v)
+		return r.onStructLike(g, vs, name, t, v)
 	}
 	return "", fmt.Errorf("type error: '%s' was declared as type %s but got value[%v] of category[%s]", name, t, v, t.Category)
 }
 
-func (r *Resolver) onBool(g *Scope, name string, t *parser.Type, v *parser.ConstValue) (string, error) {
+func (r *Resolver) onBool(g, vs *Scope, name string, t *parser.Type, v *parser.ConstValue) (string, error) {
 	switch v.Type {
 	case parser.ConstType_ConstInt:
 		val := v.TypedValue.GetInt()
@@ -245,7 +245,7 @@ func (r *Resolver) onBool(g *Scope, name string, t *parser.Type, v *parser.Const
 			return s, nil
 		}
 
-		if val, ok := r.getIDValue(g, v.Extra); ok {
+		if val, ok := r.getIDValue(vs, v.Extra); ok {
 			return val, nil
 		}
 		return "", fmt.Errorf("undefined value: %q", s)
@@ -253,7 +253,7 @@ func (r *Resolver) onBool(g *Scope, name string, t *parser.Type, v *parser.Const
 	return "", errTypeMissMatch(name, t, v)
 }
 
-func (r *Resolver) onInt(g *Scope, name string, t *parser.Type, v *parser.ConstValue) (string, error) {
+func (r *Resolver) onInt(g, vs *Scope, name string, t *parser.Type, v *parser.ConstValue) (string, error) {
 	switch v.Type {
 	case parser.ConstType_ConstInt:
 		val := v.TypedValue.GetInt()
@@ -266,7 +266,7 @@ func (r *Resolver) onInt(g *Scope, name string, t *parser.Type, v *parser.ConstV
 		if s == "false" {
 			return "0", nil
 		}
-		if val, ok := r.getIDValue(g, v.Extra); ok {
+		if val, ok := r.getIDValue(vs, v.Extra); ok {
 			goType, _ := r.getTypeName(g, t)
 			val = fmt.Sprintf("%s(%s)", goType, val)
 			return val, nil
@@ -276,7 +276,7 @@ func (r *Resolver) onInt(g *Scope, name string, t *parser.Type, v *parser.ConstV
 	return "", errTypeMissMatch(name, t, v)
 }
 
-func (r *Resolver) onDouble(g *Scope, name string, t *parser.Type, v *parser.ConstValue) (string, error) {
+func (r *Resolver) onDouble(g, vs *Scope, name string, t *parser.Type, v *parser.ConstValue) (string, error) {
 	switch v.Type {
 	case parser.ConstType_ConstInt:
 		val := v.TypedValue.GetInt()
@@ -292,7 +292,7 @@ func (r *Resolver) onDouble(g *Scope, name string, t *parser.Type, v *parser.Con
 		if s == "false" {
 			return "0.0", nil
 		}
-		if val, ok := r.getIDValue(g, v.Extra); ok {
+		if val, ok := r.getIDValue(vs, v.Extra); ok {
 			return val, nil
 		}
 		return "", fmt.Errorf("undefined value: %q", s)
@@ -300,7 +300,7 @@ func (r *Resolver) onDouble(g *Scope, name string, t *parser.Type, v *parser.Con
 	return "", errTypeMissMatch(name, t, v)
 }
 
-func (r *Resolver) onStrBin(g *Scope, name string, t *parser.Type, v *parser.ConstValue) (res string, err error) {
+func (r *Resolver) onStrBin(g, vs *Scope, name string, t *parser.Type, v *parser.ConstValue) (res string, err error) {
 	defer func() {
 		if err == nil && t.Category == parser.Category_Binary {
 			res = "[]byte(" + res + ")"
@@ -316,7 +316,7 @@ func (r *Resolver) onStrBin(g *Scope, name string, t *parser.Type, v *parser.Con
 			break
 		}
 
-		if val, ok := r.getIDValue(g, v.Extra); ok {
+		if val, ok := r.getIDValue(vs, v.Extra); ok {
 			return val, nil
 		}
 		return "", fmt.Errorf("undefined value: %q", s)
@@ -325,12 +325,12 @@ func (r *Resolver) onStrBin(g *Scope, name string, t *parser.Type, v *parser.Con
 	return "", errTypeMissMatch(name, t, v)
 }
 
-func (r *Resolver) onEnum(g *Scope, name string, t *parser.Type, v *parser.ConstValue) (string, error) {
+func (r *Resolver) onEnum(g, vs *Scope, name string, t *parser.Type, v *parser.ConstValue) (string, error) {
 	switch v.Type {
 	case parser.ConstType_ConstInt:
 		return fmt.Sprintf("%d", v.TypedValue.GetInt()), nil
 	case parser.ConstType_ConstIdentifier:
-		val, ok := r.getIDValue(g, v.Extra)
+		val, ok := r.getIDValue(vs, v.Extra)
 		if ok {
 			return val, nil
 		}
@@ -338,7 +338,7 @@ func (r *Resolver) onEnum(g *Scope, name string, t *parser.Type, v *parser.Const
 	return "", fmt.Errorf("expect const value for %q is a int or enum, got %+v", name, v)
 }
 
-func (r *Resolver) onSetOrList(g *Scope, name string, t *parser.Type, v *parser.ConstValue) (string, error) {
+func (r *Resolver) onSetOrList(g, vs *Scope, name string, t *parser.Type, v *parser.ConstValue) (string, error) {
 	goType, err := r.getTypeName(g, t)
 	if err != nil {
 		return "", err
@@ -348,7 +348,7 @@ func (r *Resolver) onSetOrList(g *Scope, name string, t *parser.Type, v *parser.
 	case parser.ConstType_ConstList:
 		elemName := "element of " + name
 		for _, elem := range v.TypedValue.GetList() {
-			str, err := r.resolveConst(g, elemName, t.ValueType, elem)
+			str, err := r.resolveConst(g, vs, elemName, t.ValueType, elem)
 			if err != nil {
 				return "", err
 			}
@@ -360,7 +360,7 @@ func (r *Resolver) onSetOrList(g *Scope, name string, t *parser.Type, v *parser.
 		return fmt.Sprintf("%s{\n%s\n}", goType, strings.Join(ss, "\n")), nil
 
 	case parser.ConstType_ConstIdentifier:
-		val, ok := r.getIDValue(g, v.Extra)
+		val, ok := r.getIDValue(vs, v.Extra)
 		if ok && val != "true" && val != "false" {
 			return val, nil
 		}
@@ -370,7 +370,7 @@ func (r *Resolver) onSetOrList(g *Scope, name string, t *parser.Type, v *parser.
 	return goType + "{}", nil
 }
 
-func (r *Resolver) onMap(g *Scope, name string, t *parser.Type, v *parser.ConstValue) (string, error) {
+func (r *Resolver) onMap(g, vs *Scope, name string, t *parser.Type, v *parser.ConstValue) (string, error) {
 	goType, err := r.getTypeName(g, t)
 	if err != nil {
 		return "", err
@@ -380,12 +380,12 @@ func (r *Resolver) onMap(g *Scope, name string, t *parser.Type, v *parser.ConstV
 	case parser.ConstType_ConstMap:
 		for _, mcv := range v.TypedValue.Map {
 			keyName := "key of " + name
-			key, err := r.resolveConst(g, keyName, r.bin2str(t.KeyType), mcv.Key)
+			key, err := r.resolveConst(g, vs, keyName, r.bin2str(t.KeyType), mcv.Key)
 			if err != nil {
 				return "", err
 			}
 			valName := "value of " + name
-			val, err := r.resolveConst(g, valName, t.ValueType, mcv.Value)
+			val, err := r.resolveConst(g, vs, valName, t.ValueType, mcv.Value)
 			if err != nil {
 				return "", err
 			}
@@ -397,7 +397,7 @@ func (r *Resolver) onMap(g *Scope, name string, t *parser.Type, v *parser.ConstV
 		return fmt.Sprintf("%s{\n%s\n}", goType, strings.Join(kvs, "\n")), nil
 
 	case parser.ConstType_ConstIdentifier:
-		val, ok := r.getIDValue(g, v.Extra)
+		val, ok := r.getIDValue(vs, v.Extra)
 		if ok && val != "true" && val != "false" {
 			return val, nil
 		}
@@ -406,13 +406,13 @@ func (r *Resolver) onMap(g *Scope, name string, t *parser.Type, v *parser.ConstV
 	return goType + "{}", nil
 }
 
-func (r *Resolver) onStructLike(g *Scope, name string, t *parser.Type, v *parser.ConstValue) (string, error) {
+func (r *Resolver) onStructLike(g, vs *Scope, name string, t *parser.Type, v *parser.ConstValue) (string, error) {
 	goType, err := r.getTypeName(g, t)
 	if err != nil {
 		return "", err
 	}
 	if v.Type == parser.ConstType_ConstIdentifier {
-		val, ok := r.getIDValue(g, v.Extra)
+		val, ok := r.getIDValue(vs, v.Extra)
 		if ok && val != "true" && val != "false" {
 			return val, nil
 		}
@@ -450,7 +450,7 @@ func (r *Resolver) onStructLike(g *Scope, name string, t *parser.Type, v *parser
 		}
 
 		key := file.StructLike(st.Name).Field(f.Name).GoName().String()
-		val, err := r.resolveConst(file, st.Name+"."+f.Name, f.Type, mcv.Value)
+		val, err := r.resolveConst(file, vs, st.Name+"."+f.Name, f.Type, mcv.Value)
 		if err != nil {
 			return "", err
 		}
